@@ -158,3 +158,30 @@ Qed.
 Example conv_h1_diverges_before_drain :
   (t_status <$> c_heap (run eps0 empty_cache conv_h1) !! 1%positive) = Some Binding.
 Proof. vm_compute. reflexivity. Qed.
+
+(* second audit: a non-trivial instance of quiescence -- a successful bind acknowledged by the
+   pod notification that carries the node name, a failed bind, a pod vanishing from the API
+   server before its resync, its delete notification -- against plain delivery in another order *)
+Definition pod_bound1 : pod := mkPod 1 (Some 2%positive) (Some 1%positive) PPending false 1 0 false (mk_req 1000 1048576 0).
+Definition conv_h3 : list event :=
+  [ENode node1; EPG pg2; EPod pod_pending; EPod pod_pending2; EBind 2 1 1 true; EPod pod_bound1;
+   EBind 2 2 1 false; EApiGone 2; EDrainResync; EPodDel 2].
+Definition conv_h4 : list event := [EPod pod_bound1; ENode node1; EPG pg2].
+Example conv_hyps_nontrivial :
+  hist_ok4 eps0 empty_cache conv_h3 /\ hist_ok4 eps0 empty_cache conv_h4 /\
+  quiescent eps0 conv_h3 /\ quiescent eps0 conv_h4 /\
+  fold_left pend_syn conv_h3 ∅ = ∅ /\
+  o_pods (final_objects conv_h3) = o_pods (final_objects conv_h4) /\
+  o_nodes (final_objects conv_h3) = o_nodes (final_objects conv_h4) /\
+  snd (bind_task eps0 (run eps0 empty_cache [ENode node1; EPG pg2; EPod pod_pending; EPod pod_pending2]) 2 1 1 true) = RDone.
+Proof.
+  assert (Hp : pod_ok pod_pending) by (split; [discriminate|]; split; [vm_compute; discriminate|discriminate]).
+  assert (Hp2 : pod_ok pod_pending2) by (split; [discriminate|]; split; [vm_compute; discriminate|discriminate]).
+  assert (Hp3 : pod_ok pod_bound1) by (split; [discriminate|]; split; [vm_compute; discriminate|discriminate]).
+  split; [|split].
+  - simpl. repeat split; auto; try discriminate; try (vm_compute; discriminate);
+      try (intros old H; vm_compute in H; first [discriminate | injection H as <-; intros Hn; vm_compute in Hn; congruence]).
+  - simpl. repeat split; auto; try discriminate; try (vm_compute; discriminate);
+      try (intros old H; vm_compute in H; discriminate).
+  - repeat split; try (apply (bool_decide_unpack _); vm_compute; exact I); vm_compute; reflexivity.
+Qed.
